@@ -24,7 +24,7 @@ func init() {
 		Property: "C14", EngineName: "chainsim",
 		New:       func(tier string) core.Engine { return &chainsim{tier: tier} },
 		QuickRuns: 40000, QuickCapS: 60, ThoroughRun: 2000000, ThoroughCap: 1200,
-		Rule: "a case = (entry API kind, chain of 1-8 frames each one of 13 script frame kinds or 14 native calling conventions, payload kind raised by the innermost frame / interrupt tick / call-depth limit, what the Go-implemented return() and next() of every host iterator consumed by a for-of / destructuring frame do); distinct = distinct (entry, frame-kind sequence, payload kind); non-trivial = the chain has at least one native frame and the abrupt state crossed at least one script catch/finally frame",
+		Rule: "a case = (entry API kind, chain of 1-8 frames each one of 14 script frame kinds or 14 native calling conventions, payload kind raised by the innermost frame / interrupt tick / call-depth limit, what the Go-implemented return() and next() of every host iterator consumed by a for-of / destructuring frame or by an iterate()-based built-in (Array.from mapper, Set subclass add(), Promise.all resolve) do); distinct = distinct (entry, frame-kind sequence, payload kind); non-trivial = the chain has at least one native frame and the abrupt state crossed at least one script catch/finally frame",
 		Real: realComponents,
 		Stub: []string{"every native frame of the chain (host functions of each calling convention)", "the host-implemented iterators (objects made by Go whose [Symbol.iterator], next and return are Go functions)", "the catch/finally recorders C and F", "the raiser (innermost frame) and the interrupting watchdog (tick hook, same goroutine)"},
 		Assumptions: []string{
@@ -35,11 +35,12 @@ func init() {
 			"stack top frame is asserted exactly only for script throws that reach the host without passing a catch-rethrow frame; otherwise only a non-empty stack",
 			"*Exception pointer identity is asserted only when the raiser panicked with / returned an *Exception and no script catch or finally frame lies between it and the host",
 			"ECMA-262 IteratorClose: an exception thrown by return() is ignored when the loop is left by a throw and replaces the completion when it is left by return/break or when a destructuring pattern ends; a non-goja panic in return() is not an exception and must reach the host in both cases; an iterator whose next() throws is not closed",
+			"iterate()-based built-ins (IfAbruptCloseIterator): a throw from the per-element callback closes the iterator (return()'s own throw ignored) and goes on; an uncatchable condition, bare or wrapped through any %w chain, passes without return() / a generator's finally block running; a non-goja panic from the callback passes without return() being called, one raised by return() reaches the host",
 			"a foreign panic raised synchronously ends the outermost call before the promise job queue is drained: jobs pending at that point need not run",
 			"after rt.Interrupt() inside a native that is not followed by any VM instruction the interrupt stays pending (documented: it only works while in JavaScript code); the host clears it before reusing the runtime",
 		},
 		FaultKinds: append(append([]string{}, chPayloadNames[1:]...), "iter-next-throw", "iter-return-panic-value", "iter-return-panic-exception", "iter-return-go-error",
-			"iter-return-foreign-string", "iter-return-foreign-struct", "iter-return-foreign-runtime-error", "iter-return-interrupt"),
+			"iter-return-foreign-string", "iter-return-foreign-struct", "iter-return-foreign-runtime-error", "iter-return-interrupt", "iter-return-wrapped-overflow"),
 	})
 }
 
@@ -78,6 +79,17 @@ func (e *chainsim) Run(t *core.Tape, want bool) *core.Result {
 			nNative++
 		}
 	}
+	// a %w-wrapping native frame directly below an iterate()-based built-in / a host-iterator loop, often enough
+	for i := range frames {
+		d := W.Draw(3)
+		if i > 0 && d == 1 && (frames[i-1].kind == cjIterBuiltin || frames[i-1].kind == cjHostIter) {
+			if chIsNative(frames[i].kind) {
+				nNative--
+			}
+			frames[i].kind = cnReflectWrap
+			nNative++
+		}
+	}
 	wFlavour := W.Draw(3) // raiser flavour when the payload leaves the choice open
 
 	// ---- schedule: the fault -------------------------------------------------------------------------------------
@@ -98,19 +110,20 @@ func (e *chainsim) Run(t *core.Tape, want bool) *core.Result {
 	faultPos := S.Draw(1 << 16) // tick / depth position, scaled to the fault-free run
 	// what the Go-implemented return() / next() of the host iterators do (drawn for every frame position so that the tape
 	// layout does not depend on the frame kinds)
-	hasRetIntr, hasRetForeign := false, false
+	hasRetIntr, hasRetOvf, hasRetForeign := false, false, false
 	for i := range frames {
 		ra, na := chRetActTable[S.Draw(len(chRetActTable))], chNextActTable[S.Draw(len(chNextActTable))]
-		if frames[i].kind == cjHostIter {
+		if frames[i].usesHostIter() {
 			frames[i].retAct, frames[i].nextAct = ra, na
 			hasRetIntr = hasRetIntr || ra == retInterrupt
+			hasRetOvf = hasRetOvf || ra == retWrappedOverflow
 			hasRetForeign = hasRetForeign || chRetForeign(ra)
 		}
 	}
 	// the chain the transfer model sees: the uncatchable fault components taken out
 	modelFrames := append([]chFrame(nil), frames...)
 	for i := range modelFrames {
-		if modelFrames[i].retAct == retInterrupt {
+		if chRetUncatchable(modelFrames[i].retAct) {
 			modelFrames[i].retAct = retNothing
 		}
 	}
@@ -124,7 +137,7 @@ func (e *chainsim) Run(t *core.Tape, want bool) *core.Result {
 	case chPayloadGoErr(payload):
 		flavour = crReflect
 	}
-	if entry == ceTryGet && (hasJob || hasRetIntr || hasRetForeign || !(payload == cpNone || chPayloadCatchable(payload))) {
+	if entry == ceTryGet && (hasJob || hasRetIntr || hasRetOvf || hasRetForeign || !(payload == cpNone || chPayloadCatchable(payload))) {
 		entry = ceRunProgram
 	}
 
@@ -144,6 +157,8 @@ func (e *chainsim) Run(t *core.Tape, want bool) *core.Result {
 			c += fmt.Sprint(f.sel % nGenSel)
 		case cjHostIter:
 			c += fmt.Sprintf("%d.%d.%d", f.sel%nIterSel, f.retAct, f.nextAct)
+		case cjIterBuiltin:
+			c += fmt.Sprintf("%d.%d.%d", f.sel%nBuiltinSel, f.retAct, f.nextAct)
 		}
 		codes = append(codes, c)
 	}
@@ -158,7 +173,7 @@ func (e *chainsim) Run(t *core.Tape, want bool) *core.Result {
 	}
 	defer func() { goja.VerifTick = prev; curChain = nil }()
 
-	exact := !chPayloadUncatch(payload) && !hasRetIntr
+	exact := !chPayloadUncatch(payload) && !hasRetIntr && !hasRetOvf
 
 	// exec runs the chain once on a fresh runtime. counterfactual: the uncatchable fault components are taken out (the
 	// raiser's interrupt, the tick interrupt, the depth limit, interrupts raised by iterator return() methods).
@@ -176,7 +191,12 @@ func (e *chainsim) Run(t *core.Tape, want bool) *core.Result {
 			tickAt: tickAt, measureDepth: measure, maxTik: 200000, exact: exact || counterfactual, segOf: chSegments(frames)}
 		if !counterfactual {
 			r.armIntr = hasRetIntr || pl == cpIntrNative || pl == cpIntrTick
-			r.armOvf = depthLimit >= 0
+			r.armOvf = depthLimit >= 0 || hasRetOvf
+		}
+		r.gotUnc = make([]bool, n+2)
+		r.depthLimit = math.MaxInt32
+		if depthLimit >= 0 {
+			r.depthLimit = depthLimit
 		}
 		out = &chOutcome{run: r}
 		defer func() {
@@ -196,7 +216,7 @@ func (e *chainsim) Run(t *core.Tape, want bool) *core.Result {
 			if chIsNative(frames[k-1].kind) {
 				r.registerFrame(k)
 			}
-			if frames[k-1].kind == cjHostIter {
+			if frames[k-1].usesHostIter() {
 				r.registerIterator(k)
 			}
 		}
@@ -303,6 +323,12 @@ func (e *chainsim) Run(t *core.Tape, want bool) *core.Result {
 				fmt.Fprintf(&sb, " (variant %d)", f.sel%nJobSel)
 			case cjGen:
 				fmt.Fprintf(&sb, " (variant %d)", f.sel%nGenSel)
+			case cjIterBuiltin:
+				fmt.Fprintf(&sb, " (%s", chBuiltinSelNames[f.sel%nBuiltinSel])
+				if f.usesHostIter() {
+					fmt.Fprintf(&sb, "; native return(): %s; native next(): %s", chRetActNames[f.retAct], [...]string{"normal", "first call throws", "second call throws"}[f.nextAct])
+				}
+				sb.WriteString(")")
 			case cjHostIter:
 				fmt.Fprintf(&sb, " (%s; native return(): %s; native next(): %s)", chIterSelNames[f.sel%nIterSel], chRetActNames[f.retAct],
 					[...]string{"normal", "first call throws", "second call throws"}[f.nextAct])
@@ -379,6 +405,8 @@ func (e *chainsim) Run(t *core.Tape, want bool) *core.Result {
 			switch {
 			case r.tickAt >= 0:
 				res.Fail("uncatchable-error-type", "uncatchable-error-type "+res.Sig, fmt.Sprintf("the call completed (%s) although Interrupt() was called at VM tick %d", chOutcomeDesc(fo), r.tickAt), detail())
+			case r.ovfReturned:
+				res.Fail("uncatchable-error-type", "uncatchable-error-type "+res.Sig, fmt.Sprintf("the call completed (%s) although an iterator's native return() handed back the (wrapped) StackOverflowError of its nested call: it was swallowed", chOutcomeDesc(fo)), detail())
 			case r.intrRaised && !fo.pending:
 				res.Fail("uncatchable-error-type", "uncatchable-error-type "+res.Sig, fmt.Sprintf("the call completed (%s) and the interrupt raised inside a native function is neither delivered nor pending", chOutcomeDesc(fo)), detail())
 			case r.intrRaised:
@@ -422,6 +450,8 @@ func (e *chainsim) Run(t *core.Tape, want bool) *core.Result {
 		cnt(m.retForeignOnReturn, "foreign-panic-in-return()-after-normal-completion")
 		cnt(m.iterNotClosedAbrupt, "host-iterator-passed-by-foreign-panic")
 		cnt(m.nextThrew, "host-iterator-next()-threw")
+		cnt(m.builtinClosedOnThrow, "iterate-builtin-closed-by-throw")
+		cnt(m.builtinNotClosedAbrupt, "iterate-builtin-passed-by-foreign-panic")
 		abruptCrossed = m.crossCatchOrFinally
 	} else {
 		for _, f := range frames {
@@ -429,6 +459,27 @@ func (e *chainsim) Run(t *core.Tape, want bool) *core.Result {
 			case cjRethrow, cjFinally, cjBoth, cjSwallow, cjWrap:
 				abruptCrossed = true
 			}
+		}
+	}
+	if struck {
+		// an uncatchable error that a %w-wrapping native frame handed on went through an iterate()-based built-in above it
+		for i, f := range frames {
+			if f.kind != cjIterBuiltin {
+				continue
+			}
+			for j := i + 1; j < n; j++ {
+				if frames[j].kind == cnReflectWrap && r.gotUnc[j+1] {
+					res.Count("wrapped-uncatchable-through-iterate-builtin", 1)
+					i = n
+					break
+				}
+			}
+			if i == n {
+				break
+			}
+		}
+		if r.ovfReturned {
+			res.Count("wrapped-overflow-from-native-return()", 1)
 		}
 	}
 	if n == 8 {
